@@ -313,3 +313,57 @@ Section HistoryMachine.
       rewrite app_nil_r, rev_involutive. reflexivity.
   Qed.
 End HistoryMachine.
+
+(* ---- compositions used by C03 and C11 -------------------------------------------------------- *)
+Section Compositions.
+  Variable p : platform.
+  Hypothesis POK : PlatformOK p.
+  Variables (K : list N) (F : N).
+  Hypothesis HK : length K = 8%nat.
+  Local Opaque subtree_output.
+
+  (* finalize_xof of a hasher that absorbed `pieces`: a reader at position 0 of the stream of the
+     specification's root output *)
+  Theorem finalize_xof_reader pieces :
+    len (concat pieces) < 2 ^ 64 ->
+    exists h, updates p (new_internal K F) pieces = Ok h /\
+      hasher_finalize_output p h = Ok (subtree_output spec_c8 tree_height K F 0 (concat pieces)) /\
+      Rd (reader_new (subtree_output spec_c8 tree_height K F 0 (concat pieces)))
+         (subtree_output spec_c8 tree_height K F 0 (concat pieces)) 0.
+  Proof.
+    intros Hl. destruct (hasher_refines p POK K F HK pieces Hl) as (h & Hu & _ & Ho & _).
+    exists h. split; [exact Hu|]. split; [exact Ho|].
+    destruct (subtree_output_root_wf spec_c8 p POK spec_c8_cip spec_c8_len K F HK (concat pieces) Hl) as [[W1 W2] Hc].
+    apply Rd_new; [split; assumption|exact Hc].
+  Qed.
+
+  (* update_reader over any reader script: afterwards the hasher has absorbed exactly the bytes the
+     reader yielded before end of file or the first hard error *)
+  Theorem update_reader_refines h bs data script :
+    InvS K F 0 h bs -> len (bs ++ data) < 2 ^ 64 ->
+    exists h' r, update_reader p h data script = Ok (h', r) /\
+      InvS K F 0 h' (bs ++ concat (fst (delivered (copy_fuel data script) data script))) /\
+      match snd (delivered (copy_fuel data script) data script) with
+      | EndEof => r = CopyOk (nlen (concat (fst (delivered (copy_fuel data script) data script))))
+      | EndErr k => r = CopyErr k
+      | EndFuel => False
+      end.
+  Proof.
+    intros HI Hl. unfold update_reader.
+    destruct (delivered_prefix (copy_fuel data script) data script) as [rest Hrest].
+    set (ps := fst (delivered (copy_fuel data script) data script)) in *.
+    assert (Hlen : len (bs ++ concat ps) < 2 ^ 64).
+    { rewrite Hrest in Hl. rewrite !len_app in *. lia. }
+    destruct (InvS_updates p POK K F HK 0 c0_zero_lt ps h bs HI) as (h' & Hu & HI').
+    { rewrite lim0. lia. }
+    { exact Hlen. }
+    pose proof (copy_wide_spec p (copy_fuel data script) h data script 0 h') as Hc.
+    rewrite len_app in Hl. fold ps in Hc.
+    specialize (Hc ltac:(unfold nlen; unfold len in Hl; lia) Hu).
+    pose proof (copy_fuel_enough data script) as Hf.
+    destruct (snd (delivered (copy_fuel data script) data script)) eqn:Es.
+    - eexists. eexists. split; [exact Hc|]. split; [exact HI'|]. rewrite N.add_0_l. reflexivity.
+    - eexists. eexists. split; [exact Hc|]. split; [exact HI'|reflexivity].
+    - contradiction.
+  Qed.
+End Compositions.
